@@ -20,6 +20,11 @@ R2  spec->code: TLC enumerates the property's argument grid (dims {-1,0,1,2,3,5}
     boundary grid: every legal flag combination x shapes with dimensions 0..3 x lwork minimal and
     queried, every slice exactly minimal (accepted) and each slice in turn one element short
     (rejected, operands unchanged).
+    Workspace part (LapackQuery.tla): every routine with an lwork argument x every legal flag combination x
+    shapes with dimensions on both sides of the blocking thresholds and extreme aspect ratios: the workspace
+    query changes nothing but work[0], the call with the queried length and the call with the documented
+    minimum complete without a panic; mat.QR / LQ / SVD / Eigen / GSVD / HOGSVD Factorize with every kind flag
+    on the same shapes do not panic.
 """
 import json
 import os
@@ -141,7 +146,39 @@ def run(ctx):
                 scratch.append(sample)
         return f
 
-    stages = [r1_addr, r1_table(False), r1_table(True)]
+    # ---- R2: workspace-query sufficiency (LapackQuery.tla) ------------------------------------
+    # every routine with an lwork argument (taken from the decision table, not listed here) x every legal
+    # flag combination x tall / wide / threshold shapes: query -> call with the queried length -> call with
+    # the documented minimum; and the mat factorizations that size their workspaces by such queries
+    def r2_query():
+        def grid(big, tag):
+            qs = [1, 2, 3, 32, 33, 65, 129, 160, 300] if big else [1, 2, 3, 33, 65, 160, 300]
+            base = dict(QS=tset(qs), QGN=tset(qs if big else [1, 2, 3, 33, 65]), QK=tset([1, 3, 70, 200] if big else [1, 3, 70]),
+                        QLD=tset([0, 3] if big else [0]), CAP=90000 if big else 25600, EMIT="TRUE")
+            nsh = 4
+
+            def part(mode, sh, n, nm):
+                return lambda: ctx.gen("contract/LapackQuery.tla", "contract/LapackQuery.cfg", workers=1, timeout=2400, name=nm,
+                                       subst=dict(base, MODE=mode, SHARD=sh, NSHARDS=n))
+            parts = ctx.parallel([part("lapack", sh, nsh, "R2 gen LAPACK workspace-query grid %s %d/%d" % (tag, sh + 1, nsh))
+                                  for sh in range(nsh)] + [part("mat", 0, 1, "R2 gen mat factorization grid " + tag)], width=2)
+            both = os.path.join(ctx.work, "lapack-query-%s.ndjson" % tag)
+            with open(both, "w") as fo:
+                for part_ in parts:
+                    with open(part_) as fi:
+                        for line in fi:
+                            fo.write(line)
+            return both
+        small = grid(False, "quick")
+        # the workspace formulas do not depend on the kernels: quick runs the default build only; thorough runs the
+        # large grid (dimensions up to 300 x 300, two strides) under the default build and the quick grid under the others
+        plan = [("default", grid(True, "thorough"))] + [(bn, small) for bn, _ in builds[1:]] if thorough else [("default", small)]
+        for bn, cases in plan:
+            summ = ctx.replay(bins[bn], "contract", cases, ["build=" + bn], timeout=3000,
+                              name="R2 replay LAPACK workspace queries + mat factorizations [%s]" % bn)
+            check_vacuity(ctx, summ, "workspace-query grid")
+
+    stages = [r2_query, r1_addr, r1_table(False), r1_table(True)]
     ltarget = 8000 if thorough else 600
     for label, fams in LAPACK:
         stages.append(r2_lapack(fams, ltarget, label))
